@@ -47,6 +47,20 @@ def owner_class(name):
     return _CLS[name]
 
 
+_PCLS = {}
+
+
+def proto_class(name):
+    """the configuration's trait reached through PrototypedFrom: validated
+    by the prototype's trait, stored on the deferring object"""
+    if name not in _PCLS:
+        from traits.api import Instance, PrototypedFrom
+        _PCLS[name] = type("Deferring", (HasTraits,), {
+            "p": Instance(owner_class(name), ()),
+            "x": PrototypedFrom("p"), "other": L.Int(7)})
+    return _PCLS[name]
+
+
 def snap(obj):
     return sorted((k, id(v)) for k, v in obj.__dict__.items())
 
@@ -66,6 +80,8 @@ def one(ctx, cname, label, route, pre):
     ctx.tr()
     v = L.value(label)
     obj = None
+    if route == "proto":
+        cls = proto_class(cname)
     if route != "ctor":
         obj = cls()
         if pre == "stored":
@@ -77,7 +93,7 @@ def one(ctx, cname, label, route, pre):
         before_x = obj.__dict__.get("x", L)
     exc = None
     try:
-        if route == "setattr":
+        if route in ("setattr", "proto"):
             obj.x = v
         elif route == "trait_set":
             obj.trait_set(x=v)
@@ -147,7 +163,7 @@ def one(ctx, cname, label, route, pre):
             bad("conversion", "stored %r (%s), documented conversion is %r "
                 "(%s)" % (stored, type(stored).__name__, model[1],
                           type(model[1]).__name__))
-    if c.shadow is not None:
+    if c.shadow is not None and route != "proto":
         ctx.outcome("shadow-checked")
         sh = getattr(obj, "x_")
         want = c.shadow(stored)
@@ -194,6 +210,71 @@ def one(ctx, cname, label, route, pre):
         ctx.nontriv((cname, label, "accepted"))
 
 
+import re as _re
+
+_ADDR = _re.compile(r"0x[0-9a-fA-F]+")
+
+
+def _noaddr(x):
+    """str()/repr() conversions of fresh objects differ by their address"""
+    if isinstance(x, str):
+        return _ADDR.sub("0x", x)
+    if isinstance(x, bytes):
+        return _re.sub(rb"0x[0-9a-fA-F]+", b"0x", x)
+    if isinstance(x, tuple):
+        return tuple(_noaddr(e) for e in x)
+    return x
+
+
+def quick_outcome(cname, label):
+    """outcome of a plain assignment on a fresh object: ("exc", class) or
+    ("ok", stored)"""
+    obj = owner_class(cname)()
+    v = L.value(label)
+    try:
+        obj.x = v
+    except BaseException as e:
+        return ("exc", type(e), False)
+    try:
+        r = obj.x
+        return ("ok", r, r is v)
+    except BaseException as e:
+        return ("exc-read", type(e), False)
+
+
+def history_independence(ctx, cname):
+    """The verdict and the stored result for a value do not depend on what
+    was assigned before, to this object or (the trait definition is shared)
+    to another one: the whole lattice is assigned again in reverse order and
+    must give what it gave in the first pass."""
+    c = L.CONFIGS[cname]
+    labels = [l for l in L.LABELS if l not in c.skip]
+    first = {}
+    for label in labels:
+        first[label] = quick_outcome(cname, label)
+    for label in reversed(labels):
+        ctx.tr()
+        a, b = first[label], quick_outcome(cname, label)
+        same = a[0] == b[0] and (
+            (a[0] != "ok" and a[1] is b[1]) or
+            (a[0] == "ok" and ((a[2] and b[2]) or
+                               (a[2] == b[2] and
+                                L.same_or_nan(_noaddr(a[1]),
+                                              _noaddr(b[1]))))))
+        if not same and a[0] == "ok" and b[0] == "ok" and \
+                type(a[1]) is type(b[1]) and not isinstance(
+                    a[1], (int, float, complex, str, bytes, tuple, bool,
+                           type(None))):
+            continue        # fresh containers / adapters per assignment
+        if not same:
+            ctx.violation(
+                "C01:history-dependent:%s:%s" % (c.kind, vclass(label)),
+                "assigning %s to a fresh object gave %r in a first pass over "
+                "the lattice and %r in a second pass in reverse order"
+                % (label, a, b), config=cname, value=label,
+                route="setattr", pre="fresh", history="reverse-pass")
+
+
 def vclass(label):
     for p in ("np.", "Idx", "Flt", "Cpx", "a0d", "a1d", "a2d", "l[", "t("):
         if label.startswith(p):
@@ -217,6 +298,8 @@ def plan(cname, tier):
         if tier == "thorough" or label in SUB:
             out.append((label, "ctor", "fresh"))
             out.append((label, "trait_set", "fresh"))
+            if not c.owner_attrs:
+                out.append((label, "proto", "fresh"))
             if c.shadow is not None or tier == "thorough":
                 out.append((label, "trait_setq", "fresh"))
                 if c.good is not None:
@@ -245,6 +328,9 @@ def run_shard(ctx, shard, tier):
             ctx.case({"config": cname, "value": label, "route": route,
                       "pre": pre})
             one(ctx, cname, label, route, pre)
+        ctx.case({"config": cname, "value": "*", "route": "setattr",
+                  "pre": "fresh", "history": "reverse-pass"})
+        history_independence(ctx, cname)
     if names:
         ctx.sample({"config": names[0], "value": "f2-eps",
                     "route": "setattr", "pre": "fresh"})
@@ -255,7 +341,10 @@ def replay(rec):
     from mc.ctx import Ctx
     ctx = Ctx("C01", None, "quick", 0)
     c = rec["case"]
-    one(ctx, c["config"], c["value"], c["route"], c["pre"])
+    if c.get("history"):
+        history_independence(ctx, c["config"])
+    else:
+        one(ctx, c["config"], c["value"], c["route"], c["pre"])
     for v in ctx.violations.values():
         print("  violation:", v["sig"], v["msg"])
         print("  observed:", v["record"].get("observed"))
